@@ -54,6 +54,16 @@ func main() {
 	switch os.Args[1] {
 	case "rand1":
 		cmdRand1(os.Args[2:])
+	case "cat1":
+		cmdCat1(os.Args[2:])
+	case "ctl":
+		cmdCtl(os.Args[2:])
+	case "pairs":
+		cmdPairs(os.Args[2:])
+	case "fuzz":
+		cmdFuzz(os.Args[2:])
+	case "rsweep":
+		cmdRsweep(os.Args[2:])
 	case "play":
 		cmdPlay(os.Args[2:])
 	case "sweep8":
